@@ -582,8 +582,9 @@ theorem readChunks_stream (cs : List Bytes) (hne : ∀ c ∈ cs, c ≠ [] ∧ c.
       simp
     have h3 : (d ++ 13 :: 10 :: (chunkStream r ++ rest)).take d.length = d := by simp
     simp only [hn62, if_false, hn0, Bool.false_eq_true]
-    have hex2 : (if (0 : Int) + (↑(hexDigits d.length ++ [13]).length + 1) + 2 - (16 + 2 * (d.length : Int)) < 0 then (0 : Int)
-        else (0 : Int) + (↑(hexDigits d.length ++ [13]).length + 1) + 2 - (16 + 2 * (d.length : Int))) = 0 := by
+    have hex2 : nextExcess 0 (hexDigits d.length ++ [13]).length d.length = 0 := by
+      unfold nextExcess
+      simp only
       split
       · rfl
       · omega
